@@ -69,6 +69,8 @@ type retRec struct {
 type Exec struct {
 	E         *Env
 	epochMerge map[int]*epochMergeRec
+	usableLS       map[string]*LoopSpec
+	loopProbeState *State
 	ghostGoTypes map[string]types.Type
 	pre       map[string]*Term
 	heapSorts map[string]*Sort
@@ -400,16 +402,58 @@ func (X *Exec) loopSpecFor(fr *Frame, li *loopInfo) *LoopSpec {
 	key := X.E.P.Keys[fr.Fn]
 	if fs := X.E.Specs.Funcs[key]; fs != nil {
 		if ls := fs.Loops[li.Ordinal]; ls != nil {
-			return ls
+			return X.usableLoopSpec(fr, li, ls)
 		}
 	}
 	return &LoopSpec{}
 }
 
+// usableLoopSpec drops invariants that name a local the code no longer has (a refactoring): the obligations that
+// depended on them then fail under their own names instead of the whole function failing as an engine error.
+func (X *Exec) usableLoopSpec(fr *Frame, li *loopInfo, ls *LoopSpec) *LoopSpec {
+	k := fmt.Sprintf("%d|%p", fr.ID, ls)
+	if u, ok := X.usableLS[k]; ok {
+		return u
+	}
+	out := *ls
+	out.Invariants = nil
+	st := X.loopProbeState
+	for _, inv := range ls.Invariants {
+		ok := true
+		if st != nil {
+			func() {
+				defer func() {
+					if r := recover(); r != nil {
+						if se, isSE := r.(specErr); isSE && strings.Contains(se.msg, "unknown identifier") {
+							ok = false
+							X.E.warn("%s: loop %d invariant dropped (%s): %s", X.E.P.Keys[fr.Fn], li.Ordinal, se.msg, inv.Src)
+							return
+						}
+						panic(r)
+					}
+				}()
+				X.evalClause(fr, st.Clone(), inv, X.loopVars(fr, li, st))
+			}()
+		}
+		if ok {
+			out.Invariants = append(out.Invariants, inv)
+		}
+	}
+	if st != nil {
+		if X.usableLS == nil {
+			X.usableLS = map[string]*LoopSpec{}
+		}
+		X.usableLS[k] = &out
+	}
+	return &out
+}
+
 // enterLoop: assert invariants on the entry state, havoc what the loop modifies, assume invariants.
 func (X *Exec) enterLoop(fr *Frame, li *loopInfo, st *State) *State {
 	ts := X.E.TS
+	X.loopProbeState = st
 	ls := X.loopSpecFor(fr, li)
+	X.loopProbeState = nil
 	key := X.loopKey(fr, li)
 	fnKey := X.E.P.Keys[fr.Fn]
 
